@@ -40,8 +40,21 @@ NSG __attribute__((noinline)) void sim_poison_stack_below(void) {
   if (!m) return;
   fiber_t* f = m->current_fiber;
   if (!f || f->context.is_thread || !f->context.ctx_stack) return;
-  volatile char marker;
   char* lo = (char*)f->context.ctx_stack;
-  char* hi = (char*)&marker - 512;
+  char* hi = (char*)__builtin_frame_address(0) - 512;
   if (hi > lo && hi < lo + f->context.ctx_stack_size) memset(lo, 0xFB, (size_t)(hi - lo));
+}
+
+/* C18 (spinlock under plain threads): fiber_spinlock_lock() bumps a statistics counter in the calling
+ * thread's fiber manager.  Threads of pure data-structure harnesses have none; give them a dummy one. */
+extern int fiber_mode;
+extern int sim_active;
+fiber_manager_t* __real_fiber_manager_get(void);
+NSG fiber_manager_t* __wrap_fiber_manager_get(void) {
+  fiber_manager_t* m = __real_fiber_manager_get();
+  if (!m && sim_active && !fiber_mode) {
+    static __thread fiber_manager_t dummy;
+    return &dummy;
+  }
+  return m;
 }
